@@ -5,6 +5,7 @@ import (
 	"fmt"
 	"math/big"
 	"sort"
+	"strings"
 
 	"github.com/canopy-network/canopy/fsm"
 	"github.com/canopy-network/canopy/lib"
@@ -75,11 +76,22 @@ type dexStats struct {
 
 type dexOracle struct {
 	orders map[string]*dexOrd // hex(order id)
+	lpDone map[string]int     // "<chain>/<hex(order id)>" -> times a withdrawal / deposit was executed on that chain
 	st     dexStats
 }
 
+// once records the execution of a withdrawal / deposit on a chain; each may happen once per chain.
+func (o *dexOracle) once(where string, id []byte, what string) error {
+	k := where[:strings.Index(where, " h")] + "/" + lib.BytesToString(id)
+	o.lpDone[k]++
+	if o.lpDone[k] > 1 {
+		return fmt.Errorf("%s: %s %x executed %d times on this chain", where, what, id, o.lpDone[k])
+	}
+	return nil
+}
+
 func newDexOracle() *dexOracle {
-	return &dexOracle{orders: map[string]*dexOrd{}, st: dexStats{rotations: map[uint64]int{}}}
+	return &dexOracle{orders: map[string]*dexOrd{}, lpDone: map[string]int{}, st: dexStats{rotations: map[uint64]int{}}}
 }
 
 // dexInput describes the counter-chain batch a block processed.
@@ -212,6 +224,9 @@ func (o *dexOracle) replayWithdrawals(cur *evCursor, ws []*lib.DexLiquidityWithd
 			return fmt.Errorf("%s: expected the withdrawal event of %x, got %v", where, w.OrderId, e)
 		}
 		wd := e.GetDexLiquidityWithdrawal()
+		if err := o.once(where, w.OrderId, "withdrawal"); err != nil {
+			return err
+		}
 		burned := u(wd.PointsBurned)
 		if burned.Cmp(mulDivFloor(hp, u(w.Percent), big.NewInt(100))) > 0 {
 			return fmt.Errorf("%s: withdrawal %x burned %s points, more than %d%% of the provider's %s", where, w.OrderId, burned, w.Percent, hp)
@@ -252,6 +267,9 @@ func (o *dexOracle) replayDeposits(cur *evCursor, ds []*lib.DexLiquidityDeposit,
 			return nil, fmt.Errorf("%s: expected the deposit event of %x, got %v", where, d.OrderId, e)
 		}
 		de := e.GetDexLiquidityDeposit()
+		if err := o.once(where, d.OrderId, "deposit"); err != nil {
+			return nil, err
+		}
 		if de.Amount != d.Amount || de.LocalOrigin != local {
 			return nil, fmt.Errorf("%s: deposit event %x amount %d local=%v, batch says %d local=%v", where, d.OrderId, de.Amount, de.LocalOrigin, d.Amount, local)
 		}
@@ -292,6 +310,7 @@ func (o *dexOracle) replay(self, counter, h uint64, pre, post *chainsim.RawState
 	R := in.remote
 	L := pre.Locked[counter]
 	led := ledgerOf(pre.Pools[liq])
+	answered := in.fallback && !batchEmpty(L) && bytes.Equal(L.ReceiptHash, batchHash(R))
 	if in.fallback {
 		// documented: refund every order and deposit of our locked batch, mirror the counter chain's points, drop the batch
 		o.st.fallbacks++
@@ -305,6 +324,18 @@ func (o *dexOracle) replay(self, counter, h uint64, pre, post *chainsim.RawState
 			for _, d := range L.Deposits {
 				credits.add(d.Address, u(d.Amount))
 			}
+		}
+		if answered && len(evs) == 0 {
+			// the counter batch was executed when the dropped batch was locked; not executing it again is the only way not to pay
+			// its operations twice. Accepted shape: nothing but the refunds moves and the old receipts stay acknowledged.
+			if got := u(post.PoolAmount(liq)); got.Cmp(pool) != 0 {
+				return fmt.Errorf("%s: liveness fallback without execution moved the liquidity pool %s -> %s", where, pool, got)
+			}
+			nl := post.Locked[counter]
+			if !batchEmpty(nl) && (!bytes.Equal(nl.ReceiptHash, batchHash(R)) || fmt.Sprint(nl.Receipts) != fmt.Sprint(L.Receipts)) {
+				return fmt.Errorf("%s: liveness fallback re-locked a batch that does not carry the receipts already produced for %x", where, batchHash(R))
+			}
+			return nil
 		}
 		led = &pointsLedger{pts: map[string]*big.Int{}, total: u(R.TotalPoolPoints)}
 		for _, pp := range R.PoolPoints {
